@@ -250,7 +250,7 @@ fn same(got: &[u8], want: &[u8]) -> bool {
 /// TRUSTED stub of `encoding_rs::Encoding::decode` (dependency, not under verification): for the windows-1252 encoding and input
 /// bytes that are all < 0x80 the decoded text consists of the same ASCII characters (WHATWG single-byte decoder; no BOM is ASCII).
 /// The stub ASSERTS that it is used only in that domain.
-fn decode_ascii_1252_stub<'a>(e: &'static Encoding, bytes: &'a [u8]) -> (Cow<'a, str>, &'static Encoding, bool) {
+pub(crate) fn decode_ascii_1252_stub<'a>(e: &'static Encoding, bytes: &'a [u8]) -> (Cow<'a, str>, &'static Encoding, bool) {
     assert!(e == encoding_rs::WINDOWS_1252);
     let mut k = 0;
     while k < bytes.len() {
@@ -261,7 +261,7 @@ fn decode_ascii_1252_stub<'a>(e: &'static Encoding, bytes: &'a [u8]) -> (Cow<'a,
 }
 
 /// TRUSTED stub of `codepage::to_encoding` (dependency): code page 1252 is windows-1252.  Asserts it is asked for 1252 only.
-fn to_encoding_1252_stub(cp: u16) -> Option<&'static Encoding> {
+pub(crate) fn to_encoding_1252_stub(cp: u16) -> Option<&'static Encoding> {
     assert!(cp == 1252);
     Some(encoding_rs::WINDOWS_1252)
 }
@@ -306,7 +306,7 @@ fn image_real(toks_a: &[Tok], toks_b: &[Tok], decoys: bool) -> Cfb {
 /// MODEL of `decompress_stream` for the wiring harnesses: a container is SignatureByte 0x01 followed by the data "stored" as is,
 /// D(0x01 ++ d) = d, anything else is an error.  from_cfb is parametric in the decompression function (it only passes slices to it
 /// and stores/parses what comes back); decompress_stream itself is covered by the Verus unit `vbadec` and kani/vbadec.rs.
-fn decompress_model(s: &[u8]) -> Result<Vec<u8>, CfbError> {
+pub(crate) fn decompress_model(s: &[u8]) -> Result<Vec<u8>, CfbError> {
     if s[0] != 0x01 {
         return Err(CfbError::Invalid { name: "signature", expected: "0x01", found: s[0] as u16 });
     }
@@ -323,7 +323,7 @@ const DIR_MODEL: Buf<320> = {
 
 /// image 2 (decompress_stream replaced by the model D): stream "SB" = 0x01 ++ src_a, stream "SA" = 3 junk bytes ++ 0x01 ++ src_b,
 /// stream "dir" = 0x01 ++ records; all three (and the decoys) in the mini stream, "dir" spans 5 mini sectors
-fn image_model(src_a: &[u8; 3], src_b: &[u8; 2], junk: &[u8; 3], decoys: bool) -> Cfb {
+pub(crate) fn image_model(src_a: &[u8; 3], src_b: &[u8; 2], junk: &[u8; 3], decoys: bool) -> Cfb {
     let sb = [0x01, src_a[0], src_a[1], src_a[2]];
     let sa = [junk[0], junk[1], junk[2], 0x01, src_b[0], src_b[1]];
     let mut mini = Mini::new();
@@ -436,7 +436,7 @@ pub fn from_cfb_two_modules_concrete() {
     check_project(image_real(&ta, &tb, false), b"ab", b"dddd");
 }
 
-fn spin(k: u8) { let mut n = 0u8; while n < k { n += 1; } assert!(n == k); }
+pub(crate) fn spin(k: u8) { let mut n = 0u8; while n < k { n += 1; } assert!(n == k); }
 #[kani::proof]
 pub fn probe_find() {
     let cfb = image_model(&[1,2,3], &[4,5], &[6,7,8], false);
@@ -504,4 +504,16 @@ pub fn probe_dir_tail() {
     use byteorder::{LittleEndian, ReadBytesExt};
     let x = st.read_u16::<LittleEndian>().unwrap();
     spin(x as u8);
+}
+
+#[kani::proof]
+pub fn probe_dir_tail_sym() {
+    let x: [u8; 3] = kani::any();
+    let y: [u8; 2] = kani::any();
+    let junk: [u8; 3] = kani::any();
+    let mut cfb = image_model(&x, &y, &junk, false);
+    let mut r: &[u8] = &[];
+    let s = cfb.get_stream("dir", &mut r).unwrap();
+    spin(s[1]);
+    spin(s[114]);
 }
